@@ -94,6 +94,7 @@ func (s *Syncer) syncLoop(ctx context.Context, env *lmdb.Env, r *receiver.Receiv
 
 	// Start tracker: Initial storage snapshots listed
 	s.startTracker.SetPassedInitialListing()
+	verifYield(s, "start.listed", r)
 
 	hasSnapshots := r.HasSnapshots()
 	ownInstanceID := s.instanceID()
@@ -142,6 +143,7 @@ func (s *Syncer) syncLoop(ctx context.Context, env *lmdb.Env, r *receiver.Receiv
 		}
 	}
 
+	verifYield(s, "start.captured")
 	// Store a snapshot of current data if there are no snapshots yet.
 	// We do not do this here when a snapshot already exists, because it could
 	// be a snapshot from this instance that we do not want to overwrite
@@ -166,6 +168,7 @@ func (s *Syncer) syncLoop(ctx context.Context, env *lmdb.Env, r *receiver.Receiv
 		s.startTracker.SetPassedInitialStore()
 	}
 
+	verifYield(s, "start.sent", lastSyncedTxnID)
 	// To force periodic snapshots
 	s.lastSnapshotTime = time.Now() // first not due to interval
 	forceSnapshotInterval := s.c.StorageForceSnapshotInterval
@@ -191,9 +194,11 @@ func (s *Syncer) syncLoop(ctx context.Context, env *lmdb.Env, r *receiver.Receiv
 		// snapshot when local changes are detected.
 		// TODO: LSE: Maybe also add MaxConsecutiveUpdateLoads, or base this on time?
 		nLoads := 0
+		verifYield(s, "loop.top", lastSyncedTxnID)
 	loadReadySnapshotsLoop:
 		for {
 			instance, update := r.Next()
+			verifYield(s, "loop.next", instance)
 			if instance == "" {
 				break loadReadySnapshotsLoop // no more ready remote snapshots
 			}
@@ -246,6 +251,7 @@ func (s *Syncer) syncLoop(ctx context.Context, env *lmdb.Env, r *receiver.Receiv
 				// a snapshot below.
 				lastSyncedTxnID = actualTxnID
 			}
+			verifYield(s, "load.done", lastSyncedTxnID)
 			if localChanged && nLoads > MaxConsecutiveSnapshotLoads {
 				break loadReadySnapshotsLoop // allow a local snapshot before proceeding
 			}
@@ -282,11 +288,13 @@ func (s *Syncer) syncLoop(ctx context.Context, env *lmdb.Env, r *receiver.Receiv
 			).Info("Snapshot overdue, forcing one")
 		}
 
+		verifYield(s, "check.before", lastSyncedTxnID)
 		// Check for change in local LMDB
 		info, err := env.Info()
 		if err != nil {
 			return err
 		}
+		verifYield(s, "check.read", header.TxnID(info.LastTxnID), lastSyncedTxnID)
 		s.l.WithFields(logrus.Fields{
 			"info.LastTxnID":  info.LastTxnID,
 			"lastSyncedTxnID": lastSyncedTxnID,
@@ -331,6 +339,7 @@ func (s *Syncer) syncLoop(ctx context.Context, env *lmdb.Env, r *receiver.Receiv
 			s.startTracker.SetPassCompleted()
 		}
 
+		verifYield(s, "loop.sleep", lastSyncedTxnID, waitingForInstances.Done())
 		// If set, we are done now.
 		// This check is now intentionally after the local snapshot upload.
 		if s.c.OnlyOnce && waitingForInstances.Done() {
@@ -520,6 +529,7 @@ func (s *Syncer) LoadOnce(ctx context.Context, env *lmdb.Env, instance string, u
 		// We always return LMDB reading errors, as these are really unexpected
 		return 0, false, err
 	}
+	verifYield(s, "load.txnDone", txnID, localChanged)
 	tLoaded := time.Now()
 
 	// If no actual changes were made, LMDB will not record the transaction
@@ -536,6 +546,7 @@ func (s *Syncer) LoadOnce(ctx context.Context, env *lmdb.Env, instance string, u
 	}
 
 	ts := snapshot.NameTimestampFromNano(header.Timestamp(snap.Meta.TimestampNano))
+	verifYield(s, "load.infoRead", txnID)
 	l := s.l.WithFields(logrus.Fields{
 		"time_total":            utils.TimeDiff(tLoaded, t0),
 		"time_write_lock":       utils.TimeDiff(tLoaded, tTxnAcquire),
